@@ -404,7 +404,7 @@ def C04(tier, seed):
     m_langid(c, binp, tier, light=True)
     m_long(c, binp, tier)
     m_parts(c, binp, tier)
-    m_object(c, binp, tier, edges=True, hist=False, full=True, parts=("T", "X", "Id"), grown=True)
+    m_object(c, binp, tier, edges=True, hist=False, full=(tier == "thorough"), parts=("T", "X", "Id"), grown=True)
     traces(c, binp, "parse", tier)
     traces(c, binp, "hist", tier, quick_n=2000)
     return c.finish(rule="to_string()/canonicalize() of every value reached by parsing, from_parts and every edge of the mutator machines compared byte for byte with SerLoc of the model value; the spec's canonical text is itself checked to be a strict fixpoint and never longer than the input; trace events re-judge every printed text with the strict recogniser",
@@ -419,7 +419,10 @@ def C05(tier, seed):
     m_long(c, binp, tier)
     m_subtags(c, binp, tier, light=True)
     m_parts(c, binp, tier)
-    m_object(c, binp, tier, edges=True, hist=True, full=True, parts=("U", "T", "X", "Id"), grown=True)
+    # quick: every edge of every component machine (each reached value is printed and re-read, after a rejected call, on the
+    # original, a clone and the rebuilt value); the histories, the product machine and the simulations belong to C10 and to
+    # the thorough tier here
+    m_object(c, binp, tier, edges=True, hist=(tier == "thorough"), full=(tier == "thorough"), parts=("U", "T", "X", "Id"), grown=True)
     traces(c, binp, "hist", tier, quick_n=2000)
     traces(c, binp, "parse", tier, quick_n=1500)
     return c.finish(rule="every reached value (parsed, from_parts, after every mutation edge/history) is printed and re-parsed by the real code (Locale, ExtensionsMap, LanguageIdentifier, the four subtags) and must come back equal; on the spec, ParseLoc(SerLoc(v)) = v is an invariant of every model and 'reparse' is a no-op action in every reachable state",
